@@ -453,7 +453,7 @@ theorem construct_inv {s : State} (h : Inv s) : Inv (construct fixed s).1 := by
 
 theorem kill_inv {s : State} (h : Inv s) : Inv (kill fixed s).1 := construct_inv h
 
-theorem inv_script {s : State} (h : Inv s) (a : List Outcome) (b : List Status) :
+theorem inv_script {s : State} (h : Inv s) (a : List Outcome) (b : List Ans) :
     Inv { s with outs := a, sts := b } :=
   h.of_same rfl rfl rfl rfl rfl rfl h.good rfl
 
@@ -494,17 +494,21 @@ theorem refreshOne_inv {s : State} (h : Inv s) (i : Nat) : Inv (refreshOne fixed
         intro y hy; rw [hj] at hy; cases hy; exact ⟨hg.1, hns⟩
       cases hs : s.sts with
       | nil => exact kill_inv h
-      | cons x rest =>
-        simp only
-        have hp : PreInv { s with sts := rest, mem := upd (setSt x) s.mem i } :=
-          preinv_setSt h.toPreInv i x hi rfl rfl rfl rfl rfl rfl
-        split
-        · rename_i hx
-          refine h.of_same rfl rfl rfl rfl rfl rfl hp.good ?_
-          apply map_toDict_upd
-          intro y hy; rw [hj] at hy; cases hy
-          rw [hx]; rfl
-        · exact writeR_inv hp
+      | cons a rest =>
+        cases a with
+        | fault e => exact h.of_same rfl rfl rfl rfl rfl rfl h.good rfl
+        | ignored => exact h.of_same rfl rfl rfl rfl rfl rfl h.good rfl
+        | st x =>
+          simp only
+          have hp : PreInv { s with sts := rest, mem := upd (setSt x) s.mem i } :=
+            preinv_setSt h.toPreInv i x hi rfl rfl rfl rfl rfl rfl
+          split
+          · rename_i hx
+            refine h.of_same rfl rfl rfl rfl rfl rfl hp.good ?_
+            apply map_toDict_upd
+            intro y hy; rw [hj] at hy; cases hy
+            rw [hx]; rfl
+          · exact writeR_inv hp
     · exact h
 
 theorem refreshIdx_inv : ∀ (is : List Nat) {s : State}, Inv s → Inv (refreshIdx fixed is s).1
@@ -537,10 +541,16 @@ theorem afterSend_inv {s : State} (h : PreInv s) (seq : Bool) (p : Nat)
     | some j =>
       simp only
       cases hpoll : pollSts j.st s.sts with
-      | none => exact kill_inv hw
-      | some xr =>
-        obtain ⟨x, rest⟩ := xr
-        exact writeR_inv (preinv_setSt hw.toPreInv p x hp rfl rfl rfl rfl rfl rfl)
+      | cut => exact kill_inv hw
+      | done x rest => exact writeR_inv (preinv_setSt hw.toPreInv p x hp rfl rfl rfl rfl rfl rfl)
+      | raised x e rest =>
+        have hpf : fixed.pollFix = true := rfl
+        simp only [hpf, if_true]
+        have hp2 : PreInv ({ s with disk := some (s.mem.map toDict), sts := rest,
+                                    mem := upd (setSt x) s.mem p } : State) :=
+          preinv_setSt hw.toPreInv p x hp rfl rfl rfl rfl rfl rfl
+        simp only [write_ok hp2]
+        exact inv_written hp2
 
 theorem diskBody_eq {s : State} (h : Inv s) {i : Nat} {j : Job} (hj : s.mem[i]? = some j) :
     diskBody s i = (toDict j).body := by
